@@ -59,3 +59,53 @@ def check(ctx: Ctx, quick: bool):
             if len(examples) < 3 and len(key) < 420:
                 examples.append({"document": js, "expand_plates": real, "recursive_meaning": want_req})
     ctx.cov["plates"] = {"documents": len(seen), "impl_differs_from_recursive_meaning": differ, "examples": examples}
+
+
+def check_main_pipeline(ctx: Ctx):
+    """The program entry point (torchtree.torchtree.main) on a document with an IGNORED plate and an ignored object: nothing they
+    define may reach the registry (comments are stripped before plates are expanded), a plain plate is expanded."""
+    import contextlib
+    import io
+    import json
+    import os
+    import sys
+    import torchtree.torchtree as T
+    doc = [{"id": "keep", "type": "Parameter", "tensor": [1.0]},
+           {"id": "pl", "type": "Plate", "range": "0:2", "ignore": True, "object": {"id": "ghost*", "type": "Parameter", "tensor": [9.0]}},
+           {"id": "pl2", "type": "Plate", "range": "0:2", "object": {"id": "real*", "type": "Parameter", "tensor": [2.0]}},
+           {"id": "gone", "type": "Parameter", "tensor": [3.0], "ignore": True},
+           {"id": "d", "type": "Distribution", "distribution": "torch.distributions.Normal", "x": "keep", "_note": "comment key",
+            "parameters": {"loc": {"id": "loc", "type": "Parameter", "tensor": [0.0]}, "scale": {"id": "scale", "type": "Parameter", "tensor": [1.0]}}}]
+    wd = tlc.workdir("main")
+    path = os.path.join(wd, "doc.json")
+    with open(path, "w") as f:
+        json.dump(doc, f)
+    seen = {}
+    orig = T.process_objects
+
+    def spy(element, dic, *a, **k):
+        out = orig(element, dic, *a, **k)
+        seen.update({str(k_): True for k_ in dic})
+        return out
+    old_argv = sys.argv
+    T.process_objects = spy
+    try:
+        sys.argv = ["torchtree", path]
+        with contextlib.redirect_stdout(io.StringIO()), contextlib.redirect_stderr(io.StringIO()):
+            try:
+                T.main()
+            except SystemExit:
+                pass
+    finally:
+        T.process_objects = orig
+        sys.argv = old_argv
+        shutil.rmtree(wd, ignore_errors=True)
+    ctx.add("evaluations")
+    ids = set(seen)
+    ghosts = sorted(i for i in ids if i.startswith("ghost") or i == "gone" or i == "pl")
+    if ghosts:
+        ctx.violation("C13:main:ignored-object-has-effect", f"torchtree's entry point registered {ghosts} although they are defined only by objects marked ignored",
+                      {"doc": doc})
+    missing = sorted({"keep", "real0", "real1", "d", "loc", "scale"} - ids)
+    if missing:
+        ctx.violation("C13:main:objects-missing", f"torchtree's entry point did not register {missing} (registered: {sorted(ids)})", {"doc": doc})
